@@ -3,7 +3,7 @@ Import ListNotations.
 From BB Require Import BN Brute SpaceFacts TrapFacts PercolateFacts AttractorFacts Diagram Invariants Checks Filter
   Strict PetriNet Control Meta FilterFacts PetriNetFacts TrappistFacts DiagramStruct DiagramSem1 DiagramCache
   DiagramDepth DiagramComplete Termination ControlFacts MetaFacts Candidates StrictFacts MinExpandFacts CandidatesFacts SymbolicTest SymbolicTestFacts Signed ReductionFacts ControlFacts2 Main Blocks BlocksFacts ObsFacts OwnerFacts CandidatesTerm
-  PartialOwner BlockMath BlockComplete ASeeds ASeedsFacts LogChecks SkipRule SkipRuleFacts Names NamesFacts Perm PermFacts SCC SCCFacts SCCStruct ControlFacts3 SCCTerm FilterSym Main2 StrategyFacts ControlFacts4 PyLib PySrc PySrcFacts SkipRuleFacts2 SCCComplete."""
+  PartialOwner BlockMath BlockComplete ASeeds ASeedsFacts LogChecks SkipRule SkipRuleFacts Names NamesFacts Perm PermFacts SCC SCCFacts SCCStruct ControlFacts3 SCCTerm FilterSym Main2 StrategyFacts ControlFacts4 PyLib PySrc PySrcFacts SkipRuleFacts2 SCCComplete SCCAttr."""
 
 EX_NET = """
 (* non-vacuity: two bistable switches; x0'=x1, x1'=x0, x2'=x3, x3'=x2 *)
@@ -24,7 +24,8 @@ run reporting completion leaves no attractor unserved (expand_block_one_to_one, 
 the contract of the recorded tape -- every block reported clean has no motif-avoidant attractor
 (BlockMath.block_clean), every NFVS hits every negative cycle -- which the extracted LogChecks predicates
 decide on every replayed run.  The source-SCC strategy is modelled (SCC.v) and replayed id by id against expand_scc, but the
-clause fails for it: KNOWN FINDING D15, formally D15_refuted (two different expanded nodes own one attractor).""",
+'exactly one' clause fails for it: KNOWN FINDING D15, formally D15_refuted (two different expanded nodes own one attractor);
+the 'at least one' clause holds: expand_scc_AttrServed / expand_scc_every_attractor_reported (no attractor is lost).""",
  theorems=[("filter_exact", "filter_exact", "given covering candidates, the filter returns exactly one seed per attractor of the node, and the sets are the attractors"),
            ("filter_exact_seeds_only", "filter_exact_seeds_only", "the seeds_only shortcut (last candidate of a pseudo-minimal node) is sound"),
            ("check_seeds_ok", "check_seeds_ok", "the verdict predicate run on the implementation's output is exact"),
@@ -55,7 +56,9 @@ clause fails for it: KNOWN FINDING D15, formally D15_refuted (two different expa
            ("scc_strategy_refuted", "D15_refuted", "KNOWN FINDING D15: in the diagram the source-SCC strategy builds for a 6-variable network two expanded nodes own the same attractor"),
            ("scc_witness_facts", "d15_facts", None),
            ("filter_with_symbolic_test_exact", "compute_attractors_sym_exact", "the exactness of the filter holds with the real reachability procedure, for every heuristic tape"),
-           ("node_seeds_exact", "node_seeds_exact", "one node, end to end: NFVS -> candidate pipeline (every option, limit, tape) -> filter with the real reachability procedure = exactly one seed per attractor of the node")],
+           ("node_seeds_exact", "node_seeds_exact", "one node, end to end: NFVS -> candidate pipeline (every option, limit, tape) -> filter with the real reachability procedure = exactly one seed per attractor of the node"),
+           ("scc_strategy_loses_nothing", "expand_scc_AttrServed", "source-SCC strategy from a fresh diagram: every attractor has an expanded owner"),
+           ("scc_strategy_every_attractor_reported", "expand_scc_every_attractor_reported", "... so exact per-node seeds represent every attractor at least once (D15 is only about duplicates)")],
  examples=EX_NET + """
 Example C01_example_attractors : length (attractors_b ex_sw) = 4.
 Proof. vm_compute. reflexivity. Qed.
